@@ -258,6 +258,49 @@ where
             }
         }
     }
+    // a mixed set: first and last canonical name and every documented alias spelling: valid are exactly the first, the
+    // last and the registers the aliases denote (the trait-level enumeration may spell a register as the set does)
+    {
+        let mut set: HashSet<&'static str> = [C::REGISTERS[0], C::REGISTERS[C::REGISTERS.len() - 1]].into_iter().collect();
+        set.extend(k.aliases.iter().map(|a| a.0));
+        let mut want_names: Vec<&'static str> = vec![C::REGISTERS[0], C::REGISTERS[C::REGISTERS.len() - 1]];
+        want_names.extend(k.aliases.iter().map(|a| a.1));
+        want_names.sort();
+        want_names.dedup();
+        let valid = MinidumpContextValidity::Some(set);
+        l.eval();
+        let mut vr: Vec<(&str, u64)> = ctx.valid_registers(&valid).map(|(n, v)| (canon(names, n), v.into())).collect();
+        vr.sort();
+        vr.dedup();
+        let want: Vec<(&str, u64)> = want_names.iter().map(|r| (*r, model[r])).collect();
+        if vr != want {
+            fail(l, "valid-mixed-enum", format!("mixed validity set: valid_registers() = {vr:x?}, expected {want:x?}"));
+        }
+        let mc = MinidumpContext { raw: (k.wrap)(ctx.clone()), valid };
+        let mut vr: Vec<(&str, u64)> = mc.valid_registers().collect();
+        vr.sort();
+        if vr != want {
+            fail(l, "valid-mixed-dispatch-enum", format!("mixed validity set: MinidumpContext::valid_registers() = {vr:x?}, expected {want:x?}"));
+        }
+    }
+    // the same with the extra spellings that are no register names for lookups (SPARC window names) thrown in: how
+    // those count is not documented, but the first and the last register must be enumerated whatever else the set holds
+    if !k.extra.is_empty() {
+        let mut set: HashSet<&'static str> = [C::REGISTERS[0], C::REGISTERS[C::REGISTERS.len() - 1]].into_iter().collect();
+        set.extend(k.extra.iter().map(|a| a.0));
+        let valid = MinidumpContextValidity::Some(set);
+        l.eval();
+        match guard(|| ctx.valid_registers(&valid).map(|(n, v)| (n, v.into())).collect::<Vec<(&str, u64)>>()) {
+            Ok(vr) => {
+                for r in [C::REGISTERS[0], C::REGISTERS[C::REGISTERS.len() - 1]] {
+                    if !vr.contains(&(r, model[r])) {
+                        fail(l, "valid-mixed-extra-enum", format!("validity set with window names: {r} is in the set but valid_registers() lists {vr:x?}"));
+                    }
+                }
+            }
+            Err(p) => l.panic_violation(&p, json!({"validity_set": "first + last + window names"})),
+        }
+    }
     // full set, spelled canonically: exactly REGISTERS are valid, aliases included
     let full: HashSet<&'static str> = C::REGISTERS.iter().copied().collect();
     let valid = MinidumpContextValidity::Some(full);
